@@ -12,6 +12,21 @@ def acl_gen(r, thorough):
     return sl.acl_histories(r, thorough, types=("read",)) + sl.stalled_resume_histories(r, thorough)
 
 
+def router_contention(thorough, violations, stats):
+    """supporting evidence for the parts no single-threaded history can reach: one thread routes to a registered user while
+    another keeps writing the same connection-table shard; every routed message must be delivered exactly once"""
+    from common import run_harness
+    cases = [{"routes": 300000 if not thorough else 3000000, "churn": 300000 if not thorough else 3000000, "shards": sh} for sh in (1, 2)]
+    obs, out = run_harness("router", cases, "debug", tag="c02rt", timeout=900)
+    if obs is None:
+        violations.append((PROP, "router contention run crashed or hung: " + out[-300:], cases[0], 0))
+        return
+    stats["router_contention_runs"] = len(cases)
+    for c, o in zip(cases, obs):
+        if o["delivered"] != o["routed"] or o["errors"] or not o["churn_ok"]:
+            violations.append((PROP, f"{o['routed']} messages routed to a registered user while another thread registered / unregistered other users in the same table: {o['delivered']} delivered, {o['errors']} errors", c, 0))
+
+
 def run(tier, replay=None):
-    return srvprops.run(PROP, THEOREMS, tier, replay, extra_gen=acl_gen,
+    return srvprops.run(PROP, THEOREMS, tier, replay, extra_gen=acl_gen, extra_stage=router_contention,
                         rule_note="plus directed ACL histories (multi-domain allow-lists edited by add/remove batches, then probed by broadcasts) and readers that stall on a tiny socket buffer while large broadcasts queue up and other clients cycle the message-buffer pool, then read on (every frame intact and attributed correctly)")
